@@ -154,8 +154,15 @@ def implied(cond, truth):
         if op == ",":
             return implied(b, truth)
         if op in ("<", ">", "<=", ">="):
-            return {("cmp", op if truth else {"<": ">=", ">": "<=", "<=": ">", ">=": "<"}[op],
-                     apath(a) or render(a), apath(b) or render(b))}
+            def side(x):
+                sx = strip(x)
+                if sx is not None and sx.get("k") == "assign" and sx.get("op") == "=":
+                    return apath(sx["ch"][0]) or render(x)     # (n = read(..)) > 0 speaks about n
+                cv = const_val(x)
+                if cv is not None:
+                    return str(cv)
+                return apath(x) or render(x)
+            return {("cmp", op if truth else {"<": ">=", ">": "<=", "<=": ">", ">=": "<"}[op], side(a), side(b))}
         return set()
     if k == "cond":
         c, x, y = n["ch"][0], n["ch"][1], n["ch"][2]
